@@ -136,6 +136,8 @@ HEADLEN = 110   # a lower bound of the origin head length (splits beyond the rea
 def segs_for(rng, n):
     if n <= 1:
         return []
+    if n > 200000:      # keep the model driver's cost linear-ish for the MB-sized bodies
+        return sorted({rng.range(1, n - 1) for _ in range(rng.range(0, 12))})
     k = rng.below(6)
     if k == 0:
         return []
